@@ -446,8 +446,15 @@ def negation(ctx):
     if len(oks) == 1:
         tp = peel(oks[0]["args"][0])
         if tp.get("k") == "tuple" and len(tp["es"]) == 2:
-            a, b = show(tp["es"][0]), show(tp["es"][1])
-            ok = ".abs()" in a and b.endswith(".is_negative()")
+            # (id.abs() as LineId, id.is_negative()) over the same parsed id, possibly through lets
+            a = resolve(tp["es"][0])
+            while a.get("k") == "cast":
+                a = resolve(a["e"])
+            b = resolve(tp["es"][1])
+            ok = a.get("k") == "mcall" and a["name"] in ("abs", "unsigned_abs") and b.get("k") == "mcall" and b["name"] == "is_negative" \
+                and local_id(a["recv"]) is not None and local_id(a["recv"]) == local_id(b["recv"])
+            if not ok and b.get("k") == "binary" and b["op"] == "<" and peel(b["r"]).get("v") == 0:
+                ok = a.get("k") == "mcall" and a["name"] in ("abs", "unsigned_abs") and local_id(a["recv"]) is not None and local_id(a["recv"]) == local_id(b["l"])
     ctx.inst("R08.3", "parse_line_id:abs-and-sign", ok, h["span"], "parse_line_id must return (|id|, id < 0): %s" % (show(oks[0])[:100] if oks else "?"))
 
 
